@@ -33,7 +33,10 @@ def one(rid):
         for gen in ("ciderpress/lib/fft_wrapper/cider_fft_config.h", "ciderpress/lib/pwutil/config.h"):
             if os.path.exists("/repo/" + gen):
                 shutil.copy("/repo/" + gen, os.path.join(scratch, gen))
-        rc, out = sh("patch -p1 -d %s < %s" % (scratch, os.path.join(d, "patch.diff")))
+        pf_ = os.path.join(d, "patch_rebased.diff")  # same refactoring, re-done on a tree changed by a later /repo fix
+        if not os.path.exists(pf_):
+            pf_ = os.path.join(d, "patch.diff")
+        rc, out = sh("patch -p1 -d %s < %s" % (scratch, pf_))
         if rc != 0:
             return rid, "PATCH-DOES-NOT-APPLY", [out[-200:]]
         bad = []
